@@ -86,10 +86,16 @@ def install_state(s):
 
 
 class _Ready:
-    def __init__(self, val=None, exc=None):
+    def __init__(self, val=None, exc=None, pending=0):
         self._v, self._e = val, exc
+        self._pending = pending     # environment answer: how many polls find the result not ready yet
+        self.polls = 0
 
     def ready(self):
+        self.polls += 1
+        if self._pending > 0:
+            self._pending -= 1
+            return False
         return True
 
     def get(self, timeout=None):
@@ -99,7 +105,8 @@ class _Ready:
 
 
 class VirtualPool:
-    def __init__(self, nworkers, schedule=(), completion='fifo'):
+    def __init__(self, nworkers, schedule=(), completion='fifo', pending=0):
+        self.pending = pending
         self.W = nworkers
         self.sched = list(schedule)
         self.k = 0
@@ -163,11 +170,11 @@ class VirtualPool:
         except HarnessError:
             raise
         except BaseException as e:  # noqa - the real pool re-raises at get()
-            return _Ready(exc=e)
+            return _Ready(exc=e, pending=self.pending)
         out = [None] * len(items)
         for start, res in done:
             out[start:start + len(res)] = res
-        return _Ready(out)
+        return _Ready(out, pending=self.pending)
 
     def map(self, f, *iterables):
         return self.amap(f, *iterables).get()
